@@ -45,7 +45,7 @@ def lookup(callee, pc=None):
     return r
 
 
-_NORM = re.compile(r'\b(?:core|alloc|std)::(?:result|option|vec|string|borrow|boxed|cell|cmp|mem|convert|collections::btree_map|collections::btree|collections|iter|fmt)::(?=[A-Z])')
+_NORM = re.compile(r'\b(?:core|alloc|std)::(?:result|option|vec|string|borrow|boxed|cell|cmp|mem|convert|collections::btree_map|collections::btree|collections|iter|fmt|ops|clone|default|hash|sync|rc)::(?=[A-Z])')
 
 
 def _norm_paths(callee):
